@@ -62,6 +62,14 @@ CHECKS = {
          "Every input sequence of up to 7 (quick) / 8 (thorough) identity-tagged entries over 4 ranks x 2 flags and every capacity 0..n+1 is run through the real Update::new and compared with the classical Second Chance queue under some tie order; identity, drop-count and no-panic are checked on each. Complete for the stated domain; larger n only through enumerated families.",
          "Trusted: the 20-line reference clock queue in harness/src/props/c08.rs; ranks limited to 4 values (ties abound) for the exhaustive part.",
          "DESIGN.md §4 C08"),
+ "C09": ("explicit-state breadth-first search over operation sequences on the real code under every emulated atime policy and timestamp granularity, checked step by step against an abstract queue, with the real prune run on a clone after every marking step",
+         "Alphabet {set, put, get+read, get unread, touch, maintenance at capacity 0/1/2} over 2-3 keys; states are canonical (name, value, mtime rank with ties, read mark, clock phase) and deduplicated; quick: 12 pairwise-covering configurations of front-end x {noatime, relatime, strict} x 6 (granularity, clock step) pairs to depth 4, thorough: all 54 (+3-key variants) to depth 8 or fixpoint. A marking operation must set the mark without touching mtime, content or any other entry; an insertion must be newest and unmarked; the next (real) maintenance must spare the marked entry.",
+         "Kernel atime behaviour and timestamp granularity are emulated by the shim (O_NOATIME + explicit stamping, flooring); one virtual clock.",
+         "DESIGN.md §4 C09"),
+ "C11": ("explicit-state breadth-first search over sequential operation histories through 1-3 independent handles on the real code, deduplicated on a canonical state key, checked step by step against a map model with explainable evictions",
+         "Front-ends plain, sharded (2, 3; thorough also 8 shards) and stacked; keys colliding on the same shard pair, on the swapped pair and through the distinctness fix-up; environment answers (trigger fires or not, which other shard is maintained) enumerated; capacities tight (2 per directory) and roomy. Every lookup must equal the map model; an entry may vanish only through an unlink that belongs to a maintenance of a listed, over-capacity directory and is a Second Chance outcome (brute force over tie orders); no key in two directories or outside its two candidates; sources consumed; read-only level untouched. Quick: depth 3-4 per configuration (about 6e5 replays); thorough: deeper, wall-capped, completed depth reported per configuration.",
+         "Histories beyond the completed depth are covered only where a fixpoint is reported. State key includes each handle's load estimates (hook).",
+         "DESIGN.md §4 C11"),
  "C10": ("explicit enumeration of the trigger's reachable states and of short write sequences through the real write path, with maintenance observed in the intercepted call trace",
          "Every capacity 0..40 (quick) / 0..200 (thorough) x every adversarial draw (boundaries of every multiple of the per-event decrement, minimum, maximum) from the uninitialised and the just-fired countdown: maintenance (an opendir of the cache directory) must be observed within max(1, k/3) writes and before the write's own publication; all write sequences of length <= 5 (7) over {set, put} x {fresh, oldest, newest key} for capacities 0..6 and worst-case families up to the largest capacity: file count <= k + max(1, k/3) after every write; huge capacities up to usize::MAX.",
          "The random source is scripted through the cfg(kismet_verif) hook in trigger::regenerate. Single writer.",
